@@ -107,7 +107,7 @@ func session(kind int, id int) (obs []string, late func() []string, err error) {
 	var sobs, cobs []string
 	var keepProto, keepCProto string
 	var keepClosed error
-	var keepExts []httphead.Option
+	var keepExts, keepSExts []httphead.Option
 	var wg sync.WaitGroup
 	var serr, cerr error
 	wg.Add(2)
@@ -130,11 +130,19 @@ func session(kind int, id int) (obs []string, late func() []string, err error) {
 			}
 			u := ws.Upgrader{Protocol: func(p []byte) bool { return string(p) == "proto-"+tag }, Negotiate: negotiate,
 				Header: ws.HandshakeHeaderString("X-Session: " + tag + "\r\n")}
+			if kind == 2 || kind == 6 { // the selector callback instead of a negotiator: the library copies what it keeps
+				u.Negotiate = nil
+				u.Extension = func(o httphead.Option) bool {
+					sobs = append(sobs, "offer:"+extString(o))
+					return true
+				}
+			}
 			hs, serr = u.Upgrade(cb)
 		}
 		if serr != nil {
 			return
 		}
+		keepSExts = hs.Extensions
 		sobs = append(sobs, "hs:"+hs.Protocol+fmt.Sprint(len(hs.Extensions))+extsString(hs.Extensions))
 		keepProto = hs.Protocol
 		for {
@@ -295,6 +303,9 @@ func session(kind int, id int) (obs []string, late func() []string, err error) {
 		}
 		for _, e := range keepExts {
 			parts = append(parts, "ext:"+extString(e))
+		}
+		for _, e := range keepSExts {
+			parts = append(parts, "sext:"+extString(e))
 		}
 		return parts
 	}
